@@ -107,6 +107,10 @@ def work(item):
         st.nt_key(fn, tuple(type(a).__name__ if not isinstance(a, (int, str, type(None))) else a for a in args), outcome)
         st.sample(fn + ":" + outcome.split(":")[0], dict(case, result=(p["result"] or "")[:80]), cap=1)
     st.note("calls_by_function", {})
+    for k in sorted(apisweep.GENERIC):
+        st.note("generic_value_class:" + k, 1)          # parameters without a class of their own (API extension): swept with generic values
+    for n, why in sorted(apigen.UNCLASSIFIED.items()):
+        st.note("not_swept:%s" % n, why)                # prototypes the interpreter cannot encode: left out, stated here
     for (fn, outcome), n in seen_outcomes.items():
         st.cls("outcome:" + outcome.split(":")[0], n)
     for fn in fns:
